@@ -155,14 +155,14 @@ PROPS["C11"] = dict(
     prefix="c11_",
     overlays=[("palette", "vk_c11.rs"), ("parse", "vk_c11p.rs")],
     per_harness={r"c11_._new_palette_from_.*": dict(mem_gb=12, timeout=1500), r"c11_t_legacy_11_.*": dict(mem_gb=12, timeout=2400),
-                 r"c11_._.*0011.*": dict(mem_gb=12, timeout=1500)},
+                 r"c11_._.*0011.*": dict(mem_gb=20, timeout=1500)},
     bounds="new-format chunks of 2 entries at first index 0 / 254 with symbolic flags, RGBA and a 1-byte name; legacy chunks of "
            "2 packets (2 + 1 colours) at concrete skip pairs (0,3) (1,2) (2,1) (0,0) with symbolic components; all 6-bit values; "
            "2 indexed pixels against a 3-entry sparse palette; both chunk orders for precedence",
     outside="count byte 0 with all 256 entries present, more than 2 packets / entries, symbolic palette indices (hash-map keys are "
-            "concrete); anything that distinguishes two palette maps alive at the same time (the side-table model is emptied when a "
-            "map is created: a new palette MERGED into a surviving legacy map looks like a replacement; the same case on the real "
-            "hash maps did not finish in 50 min)",
+            "concrete); map operations other than insert / len / ColorPalette::color (extend, remove, iteration act on the real, "
+            "empty map: a counterexample that depends on one does not reproduce natively and is reported as inconclusive); the "
+            "real hash maps themselves (a real-map precedence harness did not finish in 50 min)",
 )
 
 
